@@ -383,6 +383,18 @@ def gen_op(rng, model, cfg, step):
             y = rng.choice(free) if free and rng.random() < 0.8 else None
             if y is not None and model.root(x) == model.root(y):
                 y = None
+            xs = op.get("xs")
+            if op["op"] == "children" and isinstance(xs, list) and len(xs) >= 2 and isinstance(xs[-1], int) and rng.random() < 0.3:
+                # the root of n's own tree is moved below a child that is still to be attached: the
+                # per-child loop check has to see the new situation
+                r = model.root(op["n"])
+                if r != op["n"] and model.root(xs[-1]) != r:
+                    # ... and it has to happen before that child's own attach begins (its loop check comes
+                    # before its _pre_attach hook; a move at that late point defeats any implementation)
+                    first = [i for i, ev in enumerate(exp.trace) if ev[0] in PARENT_HOOKS and ev[1] == xs[-1]]
+                    if first and first[0] > 0:
+                        op["f"] = {"act": [[rng.randrange(first[0]), r, xs[-1]]]}
+                        return op
             if x != op.get("n"):
                 op["f"] = {"act": [[rng.randrange(len(exp.trace)), x, y]]}
                 return op
